@@ -22,13 +22,17 @@ type regEntry struct{ kind, name, source string }
 
 type nopCert struct{}
 
-func (nopCert) CheckApplies(*x509.Certificate) bool          { return true }
-func (nopCert) Execute(*x509.Certificate) *lint.LintResult   { return &lint.LintResult{Status: lint.Pass} }
+func (nopCert) CheckApplies(*x509.Certificate) bool { return true }
+func (nopCert) Execute(*x509.Certificate) *lint.LintResult {
+	return &lint.LintResult{Status: lint.Pass}
+}
 
 type nopCRL struct{}
 
-func (nopCRL) CheckApplies(*x509.RevocationList) bool        { return true }
-func (nopCRL) Execute(*x509.RevocationList) *lint.LintResult { return &lint.LintResult{Status: lint.Pass} }
+func (nopCRL) CheckApplies(*x509.RevocationList) bool { return true }
+func (nopCRL) Execute(*x509.RevocationList) *lint.LintResult {
+	return &lint.LintResult{Status: lint.Pass}
+}
 
 type nopOCSP struct{}
 
